@@ -201,7 +201,7 @@ def pvStore (o : Oracle M) (hash : H) (depth β : Int) (a : PvAcc M) (s : Eng M)
     | _, _ => throw (.panic "pvSearch: best[0]")
 
 /-- `pvSearch` with the recursive calls abstracted; `frame = false` models `ply = maxDepth` -/
-def pvNode [DecidableEq M] (g : Game P M) (cfg : Cfg) (o : Oracle M) (frame : Bool)
+def pvNode [DecidableEq M] (g : Game P M) (cfg : SOpts) (o : Oracle M) (frame : Bool)
     (cpv : PvFn P M) (czw : ZwFn P M) : PvFn P M := fun p ply depth pv α β s =>
   let over := g.over p
   if depth ≤ 0 || over then pure (leaf g p over s) else
@@ -225,7 +225,7 @@ def pvNode [DecidableEq M] (g : Game P M) (cfg : Cfg) (o : Oracle M) (frame : Bo
 /-! ### zwSearch -/
 
 /-- `nullMoveOK` -/
-def nullMoveOK (g : Game P M) (cfg : Cfg) (ply : Nat) (depth : Int) (p : P) (s : Eng M) : Except Err Bool :=
+def nullMoveOK (g : Game P M) (cfg : SOpts) (ply : Nat) (depth : Int) (p : P) (s : Eng M) : Except Err Bool :=
   if cfg.noNullMove then pure false
   else if ply == 0 || depth < 3 then pure false
   else do
@@ -233,7 +233,7 @@ def nullMoveOK (g : Game P M) (cfg : Cfg) (ply : Nat) (depth : Int) (p : P) (s :
     if g.isPass prev then pure false else pure (g.nullOK p)
 
 /-- the null-move attempt of `zwSearch`: `some r` = return `r` (null-move cut) -/
-def nullMove (g : Game P M) (cfg : Cfg) (czw : ZwFn P M) (p : P) (ply : Nat) (depth α : Int) (s : Eng M) :
+def nullMove (g : Game P M) (cfg : SOpts) (czw : ZwFn P M) (p : P) (ply : Nat) (depth α : Int) (s : Eng M) :
     Except Err (Option (Res M) × Eng M) := do
   let ok ← nullMoveOK g cfg ply depth p s
   if !ok then pure (none, s) else do
@@ -251,7 +251,7 @@ def nullMove (g : Game P M) (cfg : Cfg) (czw : ZwFn P M) (p : P) (ply : Nat) (de
     else pure (none, r.2)
 
 /-- the slide reduction of `zwSearch`: the depth to go on with -/
-def slideReduction (g : Game P M) (cfg : Cfg) (p : P) (ply : Nat) (depth : Int) (s : Eng M) :
+def slideReduction (g : Game P M) (cfg : SOpts) (p : P) (ply : Nat) (depth : Int) (s : Eng M) :
     Except Err (Int × Eng M) :=
   if !cfg.noReduceSlides && ply > 0 then do
     let prev ← getA s.stackM (ply - 1) "stack[ply-1].m"
@@ -281,7 +281,7 @@ def mcBody (czw : ZwFn P M) (ply : Nat) (depth α : Int) (cut : Bool)
   else pure (.next a, s)
 
 /-- the multi-cut attempt of `zwSearch`: `some r` = return `r` -/
-def multiCut [DecidableEq M] (g : Game P M) (cfg : Cfg) (o : Oracle M) (czw : ZwFn P M) (p : P) (mg : MG M)
+def multiCut [DecidableEq M] (g : Game P M) (cfg : SOpts) (o : Oracle M) (czw : ZwFn P M) (p : P) (mg : MG M)
     (α : Int) (cut : Bool) (s : Eng M) : Except Err (Option (Res M) × Eng M) :=
   if cfg.multiCut && cut && mg.depth > 3 then do
     let s := { s with st := { s.st with mcSearch := s.st.mcSearch + 1 } }
@@ -324,7 +324,7 @@ def zwStore (o : Oracle M) (hash : H) (depth α : Int) (a : ZwAcc M) (s : Eng M)
     | [] => throw (.panic "zwSearch: best[0]")
 
 /-- `zwSearch` with the recursive call abstracted -/
-def zwNode [DecidableEq M] (g : Game P M) (cfg : Cfg) (o : Oracle M) (frame : Bool)
+def zwNode [DecidableEq M] (g : Game P M) (cfg : SOpts) (o : Oracle M) (frame : Bool)
     (czw : ZwFn P M) : ZwFn P M := fun p ply depth pv α cut s =>
   let over := g.over p
   if depth ≤ 0 || over then pure (leaf g p over s) else
@@ -353,7 +353,7 @@ def zwNode [DecidableEq M] (g : Game P M) (cfg : Cfg) (o : Oracle M) (frame : Bo
         | .brk a => zwStore o (g.hash p) depth α a s
 
 /-- `(pvSearch, zwSearch)` able to use `n` more frames of `ai.stack` -/
-def search [DecidableEq M] (g : Game P M) (cfg : Cfg) (o : Oracle M) : Nat → PvFn P M × ZwFn P M
+def search [DecidableEq M] (g : Game P M) (cfg : SOpts) (o : Oracle M) : Nat → PvFn P M × ZwFn P M
   | 0 =>
     let stop : ZwFn P M := fun _ _ _ _ _ _ _ => .error (.panic "ai.stack[ply]: index out of range")
     (pvNode g cfg o false (fun _ _ _ _ _ _ _ => .error (.panic "ai.stack[ply]: index out of range")) stop,
@@ -363,7 +363,7 @@ def search [DecidableEq M] (g : Game P M) (cfg : Cfg) (o : Oracle M) : Nat → P
     (pvNode g cfg o true r.1 r.2, zwNode g cfg o true r.2)
 
 /-- `ai.pvSearch(p, ply, …)` -/
-def pvSearch [DecidableEq M] (g : Game P M) (cfg : Cfg) (o : Oracle M) (ply : Nat) : P → Int → List M → Int → Int → Eng M → Except Err (Res M × Eng M) :=
+def pvSearch [DecidableEq M] (g : Game P M) (cfg : SOpts) (o : Oracle M) (ply : Nat) : P → Int → List M → Int → Int → Eng M → Except Err (Res M × Eng M) :=
   fun p depth pv α β s => (search g cfg o (Facts.maxDepth - ply)).1 p ply depth pv α β s
 
 /-! ### Analyze -/
@@ -387,28 +387,37 @@ structure ALoop (M : Type) where
   prevEval : Nat
   branchSum : Nat
 
-/-- one iteration of `Analyze`'s deepening loop: `inl` = go on with the next depth, `inr` = leave the loop
-(`break`): cancelled, decisive value, or the `MaxEvals` estimate says stop -/
+/-- how one iteration of `Analyze`'s deepening loop ends -/
+inductive AOut (M : Type) where
+  /-- completed; go on with the next depth -/
+  | go (a : ALoop M) (s : Eng M)
+  /-- completed; `break` (decisive value, or the `MaxEvals` estimate says stop) -/
+  | done (a : ALoop M) (s : Eng M)
+  /-- `next == nil` or the cancel flag is set: the iteration is discarded, `st.Canceled = true; break` -/
+  | cancelled (s : Eng M)
+
+/-- one iteration of `Analyze`'s deepening loop -/
 def analyzeStep [DecidableEq M] (g : Game P M) (cfg : Cfg) (o : Oracle M) (p : P) (base : Int)
-    (i : Int) (a : ALoop M) (s : Eng M) : Except Err ((ALoop M × Eng M) ⊕ (ALoop M × Eng M)) := do
+    (i : Int) (a : ALoop M) (s : Eng M) : Except Err (AOut M) := do
   let s := { s with st := { depth := i + base } }
-  let r ← pvSearch g cfg o 0 p (i + base) a.ms (Facts.minEval - 1) (Facts.maxEval + 1) s
+  let r ← pvSearch g cfg.opts o 0 p (i + base) a.ms (Facts.minEval - 1) (Facts.maxEval + 1) s
   let nv := r.1.2
   -- `if next == nil || atomic.LoadInt32(m.cancel) != 0`: the flag is loaded only when `next != nil`
   match r.1.1 with
-  | none => pure (.inr ({ a with st := { a.st with canceled := true } }, r.2))
+  | none => pure (.cancelled r.2)
   | some next =>
-    let (c, s) := load o r.2
-    if c then pure (.inr ({ a with st := { a.st with canceled := true } }, s)) else
+    let c := load o r.2
+    let s := c.2
+    if c.1 then pure (.cancelled s) else
     let st := s.st.merge a.st
     let branchSum := if i > 1 then a.branchSum + s.st.evaluated / (a.prevEval + 1) else a.branchSum
     let a : ALoop M := { ms := next, v := nv, st := st, prevEval := s.st.evaluated, branchSum := branchSum }
-    if nv > Facts.winThreshold || nv < -Facts.winThreshold then pure (.inr (a, s))
+    if nv > Facts.winThreshold || nv < -Facts.winThreshold then pure (.done a s)
     else if cfg.maxEvals > 0 && i + base != cfg.depth then
       let branchEstimate : Nat := if i > 2 then branchSum / (i - 1).toNat else 5
-      if s.st.evaluated * branchEstimate > cfg.maxEvals then pure (.inr (a, s))
-      else pure (.inl (a, s))
-    else pure (.inl (a, s))
+      if s.st.evaluated * branchEstimate > cfg.maxEvals then pure (.done a s)
+      else pure (.go a s)
+    else pure (.go a s)
 
 /-- `for i := 1; i+base <= m.Cfg.Depth; i++ { … }`; `n` bounds the remaining iterations -/
 def analyzeLoop [DecidableEq M] (g : Game P M) (cfg : Cfg) (o : Oracle M) (p : P) (base : Int) :
@@ -418,8 +427,9 @@ def analyzeLoop [DecidableEq M] (g : Game P M) (cfg : Cfg) (o : Oracle M) (p : P
     if !(i + base ≤ cfg.depth) then .ok (a, s) else
     match analyzeStep g cfg o p base i a s with
     | .error e => .error e
-    | .ok (.inr r) => .ok r
-    | .ok (.inl (a, s)) => analyzeLoop g cfg o p base n (i + 1) a s
+    | .ok (.cancelled s) => .ok ({ a with st := { a.st with canceled := true } }, s)
+    | .ok (.done a s) => .ok (a, s)
+    | .ok (.go a s) => analyzeLoop g cfg o p base n (i + 1) a s
 
 /-- `Analyze` (context without deadline).  The per-call cancel flag is fresh: the load/evaluation counters
 the cancel oracle is indexed by restart at 0. -/
@@ -455,13 +465,13 @@ def analyzeAll [DecidableEq M] (g : Game P M) (cfg : Cfg) (o : Oracle M) (p : P)
           | .error e => .error e
           | .ok sm =>
             let s := { s with stackM := sm }
-            match pvSearch g cfg o 1 child (st.depth - 1) rest (-v - 1) (-v + 1) s with
+            match pvSearch g cfg.opts o 1 child (st.depth - 1) rest (-v - 1) (-v + 1) s with
             | .error e => .error e
             | .ok ((ms, cv), s) =>
               if -cv != v then .ok (.next out, s)
               else if g.moveEq m pv0 then .ok (.next out, s)
               else .ok (.next (out ++ [m :: ms.getD []]), s)
-      match iterate g cfg o p (rootMG st.depth pv) body [pv] s with
+      match iterate g cfg.opts o p (rootMG st.depth pv) body [pv] s with
       | .error e => .error e
       | .ok (.next out, s) | .ok (.brk out, s) => .ok ((out, v, st), s)
       | .ok (.ret _, s) => .ok (([pv], v, st), s)
@@ -489,7 +499,7 @@ def getMove [DecidableEq M] (g : Game P M) (cfg : Cfg) (o : Oracle M) (p : P) (s
             | .error e => .error e
             | .ok sm =>
               let s := { s with stackM := sm }
-              match pvSearch g cfg o 1 child (st.depth - 1) rest (-v - 1) (-base) s with
+              match pvSearch g cfg.opts o 1 child (st.depth - 1) rest (-v - 1) (-base) s with
               | .error e => .error e
               | .ok ((_, cv), s) =>
                 let cv := -cv
@@ -504,7 +514,7 @@ def getMove [DecidableEq M] (g : Game P M) (cfg : Cfg) (o : Oracle M) (p : P) (s
                     let r := o.rnd s.rnds i
                     let s := { s with rnds := s.rnds + 1 }
                     .ok (.next { rv := if r ≤ pts then m else a.rv, i := i }, s)
-        match iterate g cfg o p (rootMG st.depth pv) body (⟨pv0, 0⟩ : GmAcc M) s with
+        match iterate g cfg.opts o p (rootMG st.depth pv) body (⟨pv0, 0⟩ : GmAcc M) s with
         | .error e => .error e
         | .ok (.next a, s) | .ok (.brk a, s) => .ok (a.rv, s)
         | .ok (.ret _, s) => .ok (pv0, s)
